@@ -127,6 +127,13 @@ Definition set_transfer (s : nstate) (b : bool) : nstate :=
        (v_lastSnapIdx s) (v_lastSnapTerm s) (v_latest s) (v_latestIdx s) (v_committed s)
        (v_committedIdx s) (v_leader s) (v_leaderId s) b (v_fsm s) (v_fsmLast s).
 
+(* lastApplied, the FSM content and the FSM goroutine's last index in one update (one level of
+   nesting: the proofs' conversion checks grow with the depth of nested updates) *)
+Definition set_applied_fsm (s : nstate) (a : N) (fsm : list N) (x : N * N) : nstate :=
+  mkNS (d_term s) (d_vterm s) (d_vcand s) (d_log s) (d_staged s) (d_pcommit s) (d_snaps s)
+       (v_role s) (v_term s) (v_commit s) a (v_lastLogIdx s) (v_lastLogTerm s)
+       (v_lastSnapIdx s) (v_lastSnapTerm s) (v_latest s) (v_latestIdx s) (v_committed s)
+       (v_committedIdx s) (v_leader s) (v_leaderId s) (v_transfer s) fsm x.
 Definition set_fsmlast (s : nstate) (x : N * N) : nstate :=
   mkNS (d_term s) (d_vterm s) (d_vcand s) (d_log s) (d_staged s) (d_pcommit s) (d_snaps s)
        (v_role s) (v_term s) (v_commit s) (v_applied s) (v_lastLogIdx s) (v_lastLogTerm s)
@@ -303,8 +310,8 @@ Definition process_logs (s : nstate) (index : N) : option (nstate * list ev) :=
        | None => None
        | Some es =>
          let handed := filter (fun e => prepare_kind (e_ty e) =? 1) es in
-         Some (set_fsmlast (set_applied s index (fold_left fsm_apply handed (v_fsm s)))
-                           (match last_opt handed with Some e => (e_idx e, e_term e) | None => v_fsmLast s end),
+         Some (set_applied_fsm s index (fold_left fsm_apply handed (v_fsm s))
+                               (match last_opt handed with Some e => (e_idx e, e_term e) | None => v_fsmLast s end),
                flat_map fsm_events handed)
        end.
 
@@ -463,7 +470,7 @@ Definition is_body (P : params) (s2 : nstate) (rt : N) (tr1 : list ev) (fs1 : li
           let sn := mkSnap (iq_lastIdx q) (iq_lastTerm q) (iq_cfg q) (iq_cfgIdx q) (iq_data q) true in
           let s3 := set_snaps s2 (d_snaps s2 ++ [sn]) in
           (* FSM restore, then volatile bookkeeping *)
-          let s4 := set_fsmlast (set_applied s3 (iq_lastIdx q) (iq_data q)) (iq_lastIdx q, iq_lastTerm q) in
+          let s4 := set_applied_fsm s3 (iq_lastIdx q) (iq_data q) (iq_lastIdx q, iq_lastTerm q) in
           let s5 := set_lastsnap s4 (iq_lastIdx q) (iq_lastTerm q) in
           let s6 := set_committed (set_latest s5 (iq_cfg q) (iq_cfgIdx q)) (iq_cfg q) (iq_cfgIdx q) in
           (* after the "fix:" commit in /repo: a monotonic store is wiped and the cached tail reset;
